@@ -39,6 +39,7 @@ EXPLANATION += (' R-C02-4: find_turns decides reversal and plateau only by exact
 EXPLANATION += (" R-C02-6: in the three- and four-point process() every path from _new_turns to a normal exit runs the counting kernel (CFG must-pass), so no chunk's turning points or trailing sample bypass the counting rule.")
 EXPLANATION += (" R-C02-7: the compiled kernels use no single-precision function or cast (fabsf, float32, ...) on ranges, and no attribute of the detector base class holds a view of the caller's chunk (effect analysis, shared with R-C01-7).")
 EXPLANATION += (' R-C02-8 (shared with R-C03-5): no turning point is lost to the underflow / overflow of a product of two differences - the reversal test is made on their signs.')
+EXPLANATION += (" R-C02-9 (shared with R-C01-2): _new_turns returns without advancing the global sample position only when the chunk is empty; any other skipped chunk makes every later index too small.")
 ASSUMPTIONS = [
     "the compiled rainflow_ext kernels are built from extension.pyx by setup.py",
     "fabs/np.abs are the real absolute value; C doubles compare like reals (no NaN after find_turns cleaned them)",
@@ -239,6 +240,18 @@ def run(ctx):
     ctx.attempt(_r6_all_turns_counted)
     ctx.attempt(_r7_precision_and_state)
     ctx.attempt(_r8_sign_tests)
+    ctx.attempt(_r9_index_positions)
+
+
+def _r9_index_positions(ctx):
+    """R-C02-9 (clause (b') of R-C01-2, evaluated for this property): 'every reported index addresses a sample whose value is the
+    reported value' needs every chunk that is not empty to advance the global position by its length - _new_turns may return
+    without the head update only when the chunk is empty."""
+    from .c01 import _early_exits_only_for_empty_chunks, GEN
+    fi = ctx.prog.func(GEN + ":AbstractDetector._new_turns")
+    ctx.rule("R-C02-9", floor=1, what="_new_turns skips the head update only for an empty chunk (shared with R-C01-2)")
+    chunk = [p for p in fi.params if p != "self"][0]
+    _early_exits_only_for_empty_chunks(ctx, fi, chunk)
 
 
 def _r8_sign_tests(ctx):
